@@ -217,6 +217,8 @@ def _label(label, info):
         return ['send', label[1]]
     if label == ('end',):
         return ['end']
+    if label == ('recv',):
+        return ['recv']
     return str(label)
 
 
@@ -291,8 +293,9 @@ def run_case(case, policy):
 
         def handler(cid, script):
             conn = conns[cid]
-            for r in script:
-                boundary['h%d' % cid] = True
+            for i, r in enumerate(script):
+                boundary['h%d' % cid] = i > 0         # a thread that has not started stands before its first operation anyway
+                s.yield_(('recv',))                   # the request arrives: other threads may run before the marker is written
                 rj = info.req(r)
                 events.append(['reqStart', cid, rj])
                 conn.current = rj
@@ -314,8 +317,8 @@ def run_case(case, policy):
             s.yield_(('end',))
 
         def updater(u, script):
-            for mn, a, e in script:
-                boundary['u%d' % u] = True
+            for i, (mn, a, e) in enumerate(script):
+                boundary['u%d' % u] = i > 0
                 mo = node.modules[mn]
                 if e[0] == 'e':
                     mo.announceUpdate(a, err=ERRS[e[1]][0]('x'))
@@ -330,10 +333,8 @@ def run_case(case, policy):
         hs = sorted((int(c), scr) for c, scr in case['handlers'].items())
         us = sorted((int(u), scr) for u, scr in case['updaters'].items())
         for cid, scr in hs:
-            boundary['h%d' % cid] = bool(scr)
             s.spawn('h%d' % cid, handler, (cid, scr))
         for u, scr in us:
-            boundary['u%d' % u] = bool(scr)
             s.spawn('u%d' % u, updater, (u, scr))
         result = s.run(wall_timeout=20)
         cache1 = info.cache(node)
@@ -542,8 +543,122 @@ def gen_case(rng):
 
 
 # ----------------------------------------------------------------------------------------
+# operation-level histories: whole requests / assignments in a given or random global order (SerialPolicy).  What an
+# operation leaves behind in the dispatcher's tables shows only in what a LATER operation of another thread does, so these
+# runs are long (several activations, endings and assignments per thread) and have no preemption inside an operation.
+# ----------------------------------------------------------------------------------------
+def cross_scope_matrix():
+    """two connections, every pair of scope kinds (whole node / module / parameter / another parameter), both activation
+    orders, every way the second connection can end (matching deactivate, the module of its parameter, the global deactivate
+    that matches nothing, *IDN?, disconnect), assignments to two parameters before the first activation's end, between the two
+    ends and after both"""
+    scopes = [None, 'T', 'T:value', 'T:_a']
+    out = []
+    for sa in scopes:
+        for sb in scopes:
+            ends = [[D, sb], I, X]
+            if sb and ':' in sb:
+                ends.append([D, 'T'])
+            if sb:
+                ends.append([D, None])
+            for end in ends:
+                for first in (['h1', 'h2'], ['h2', 'h1']):
+                    u1 = [['T', a, V(k + i)] for k in (1, 3, 5) for i, a in enumerate(('value', 'a'))]
+                    kind, case = scn('cross-scope', ['T'], [[[A, sa], [D, sa]], [[A, sb], end]], [u1])
+                    case['serial'] = first + ['u1', 'u1', 'h2', 'u1', 'u1', 'h1', 'u1', 'u1']
+                    out.append((kind, case))
+    return out
+
+
+EXPORT = {'value': 'value', 'a': '_a', 'ab': '_ab', 'target': 'target', 'target_max': 'target_max'}
+
+
+def gen_history(rng):
+    """a long random history: 2-3 connections with 2-6 requests each (deactivations mostly of something the connection
+    activated itself), 1-2 updaters with 3-8 assignments, most of the parameter scopes and assignments on 1-2 `hot`
+    parameters so that the activations of different connections overlap; the global order of the operations is random"""
+    mods = rng.choice([['T'], ['T'], ['T', 'T2']])
+    hot = rng.sample(sorted(EXPORT), rng.choice([1, 2]))
+
+    def spec():
+        r = rng.random()
+        if r < 0.25:
+            return None
+        if r < 0.45:
+            return rng.choice(mods)
+        if r < 0.85:
+            return mods[0] + ':' + EXPORT[rng.choice(hot)]
+        return rng.choice(mods) + ':' + rng.choice(sorted(EXPORT.values()) + ['status'])
+
+    def script():
+        out, mine = [], []
+        for _ in range(rng.randint(2, 6)):
+            r = rng.random()
+            if r < 0.45 or not mine:
+                mine.append(spec())
+                out.append([A, mine[-1]])
+            elif r < 0.85:
+                out.append([D, rng.choice(mine) if rng.random() < 0.8 else spec()])
+            elif r < 0.94:
+                out.append(I)
+                mine = []
+            else:
+                out.append(X)
+                break
+        return out
+
+    def assignments():
+        out = []
+        for _ in range(rng.randint(3, 8)):
+            mn, a = (mods[0], rng.choice(hot)) if rng.random() < 0.7 else (rng.choice(mods), rng.choice(FLOATS))
+            out.append([mn, a, E(rng.randrange(len(ERRS))) if rng.random() < 0.15 else V(rng.randint(1, 9))])
+        return out
+    handlers = [script() for _ in range(rng.choice([2, 2, 3]))]
+    updaters = [assignments() for _ in range(rng.choice([1, 1, 2]))]
+    kind, case = scn('history', mods, handlers, updaters, rng.random() < 0.1)
+    order = [n for n, scr in [('h%d' % (i + 1), h) for i, h in enumerate(handlers)]
+             + [('u%d' % (i + 1), u) for i, u in enumerate(updaters)] for _ in scr]
+    rng.shuffle(order)
+    case['serial'] = order
+    return kind, case
+
+
+def serial_ops(case):
+    """the operations of a serial case in their global order: [(thread name, script item)]"""
+    left = {'h' + k: list(v) for k, v in case['handlers'].items()}
+    left.update({'u' + k: list(v) for k, v in case['updaters'].items()})
+    ops = []
+    for name in case['serial']:
+        if left.get(name):
+            ops.append((name, left[name].pop(0)))
+    for name in sorted(left):
+        ops += [(name, it) for it in left[name]]
+    return ops
+
+
+def shrink_serial(ctx, case, sig):
+    """fewer operations (the global order of the remaining ones is kept), still failing with the same signature"""
+    def build(ops):
+        c = dict(case, handlers={k: [] for k in case['handlers']}, updaters={k: [] for k in case['updaters']},
+                 serial=[n for n, _ in ops])
+        for n, it in ops:
+            c['handlers' if n[0] == 'h' else 'updaters'][n[1:]].append(it)
+        return c
+
+    def fails_with(c):
+        try:
+            return any(v[0] == sig for v in judge_case(ctx, c)[3])
+        except RuntimeError:
+            return False
+    small = build(ddmin(serial_ops(case), lambda ops: fails_with(build(ops)), max_tests=120))
+    return small if fails_with(small) else case
+
+
 def shrink(ctx, case, sig):
     """smaller schedule, then smaller scripts, still failing with the same signature"""
+    if 'serial' in case and 'choices' not in case:
+        return shrink_serial(ctx, case, sig)
+
     def fails_with(c):
         try:
             return any(v[0] == sig for v in judge_case(ctx, c)[3])
@@ -572,6 +687,8 @@ def run(ctx):
                 'at least one update was delivered by an updater broadcast (so an assignment happened while a scope was in force) '
                 'and at least one by an activation snapshot')
     rng = ctx.rng
+    res.rule += ('; an operation-level history (no preemption inside an operation) is non-trivial under the same rule, its '
+                 'deviations being the changes of thread between operations')
     big = ctx.tier == 'thorough' or ctx.escalated
     total = ctx.budget(3000, 40000)
     scenarios = list(CATALOGUE) + [gen_case(rng) for _ in range(ctx.budget(12, 120))]
@@ -651,6 +768,15 @@ def run(ctx):
             _, obs = run_case(base, RandomPolicy(rng, rng.choice([0.15, 0.3, 0.5])))
             if fresh(obs):
                 record(kind, dict(base, choices=obs['choices']), obs)
+    # ---------- operation-level histories ----------
+    histories = cross_scope_matrix() + [gen_history(rng) for _ in range(ctx.budget(300, 4000))]
+    for kind, base in histories:
+        _, obs = run_case(base, policy_for(base))
+        record(kind, base, obs)
+        if kind == 'history' and rng.random() < 0.34:      # the same scripts, random order, a few preemptions inside operations
+            plain = {k: v for k, v in base.items() if k != 'serial'}
+            _, obs = run_case(plain, SerialPolicy(rng=rng, p_fine=rng.choice([0.03, 0.08])))
+            record(kind + '+preemptions', dict(plain, choices=obs['choices']), obs)
     flush()
     if not res.samples and pending == []:
         res.notes.append('no small non-trivial sample met the sampling filter')
